@@ -304,6 +304,43 @@ def job(job):
                                                   case={'language': name, 'association': ac['cls']}))
                 except Exception:  # noqa: BLE001
                     stats['rejected'] = stats.get('rejected', 0) + 1
+        # fields edited in place after construction (append), then handed to the model - more than once: the
+        # generated classes forget that a field changed once they have complained about it
+        exl = [n for n, t in pool if L.is_sub(t, ac['lt'])]
+        exr = [n for n, t in pool if L.is_sub(t, ac['rt'])]
+        wrong_l = [n for n, t in pool if not L.is_sub(t, ac['lt'])]
+        edits = []
+        if ac['lmax'] is not None and len(exl) > ac['lmax'] and exr:
+            edits.append(('too_many', exl[:ac['lmax']], exl[ac['lmax']], exr[:1]))
+        if wrong_l and exl and exr and (ac['lmax'] is None or ac['lmax'] >= 2):
+            edits.append(('wrong_type', exl[:1], wrong_l[0], exr[:1]))
+        for why, base_l, extra, base_r in edits:
+            m3 = Model('m3', fx.factory)
+            o3 = {}
+            for n, t in pool:
+                o3[n] = getattr(fx.ns, t)(name=n)
+                m3.add_asset(o3[n])
+            before = model_state(m3)
+            case = {'language': name, 'association': ac['cls'], ac['lf']: base_l + [extra], ac['rf']: base_r, 'how': 'append then add_association x3'}
+            try:
+                x = getattr(fx.ns, ac['cls'])(**{ac['lf']: [o3[n] for n in base_l], ac['rf']: [o3[n] for n in base_r]})
+                getattr(x, ac['lf']).append(o3[extra])
+            except Exception:  # noqa: BLE001  (rejected right away: fine)
+                stats['rejected'] = stats.get('rejected', 0) + 1
+                continue
+            for attempt in range(3):
+                stats['attempts'] = stats.get('attempts', 0) + 1
+                try:
+                    m3.add_association(x)
+                    viols.append(common.Violation(f'invalid_association_accepted:{why}:after_append:attempt{attempt + 1}',
+                                                  f'{ac["cls"]} with {why} (appended after construction) was accepted on attempt {attempt + 1}',
+                                                  case=case))
+                    break
+                except Exception:  # noqa: BLE001
+                    stats['rejected'] = stats.get('rejected', 0) + 1
+                if model_state(m3) != before:
+                    viols.append(common.Violation(f'rejected_but_model_changed:{why}:after_append', 'a rejected association changed the model', case=case))
+                    break
     return stats, [v.to_json() for v in viols[:60]]
 
 
